@@ -70,6 +70,9 @@ fn models(tier: Tier) -> Vec<(usize, Model)> {
             v.push((2, ts.model(o)));
         }
     }
+    // reified and half-reified constraints with a free reification literal (scripted exploration;
+    // the ordered enumerations of the same models follow in `run`)
+    v.extend(crate::props::c09::reified_models(tier).into_iter().map(|m| (1, m)));
     // cumulative: several profiles propagating on one task in a single invocation
     for ts in c08::profile_sets() {
         for o in CumOpts::all() {
@@ -563,6 +566,27 @@ impl Property for C17 {
                 cx.nontrivial = gen::nontrivial(model, sols.len());
                 explore(model, &cfg, &bounds(tier, *group), cx, sols.len());
             });
+        }
+        // reified and half-reified constraints with a free reification literal: complete
+        // enumerations under input-order branching over permutations that place the literal first,
+        // last and in between (min and max values), every event checked
+        let mut idx = ms.len() as u64;
+        let default_cfg = Cfg::default_cfg();
+        for model in crate::props::c09::reified_models(tier) {
+            let mut sols: Option<Vec<Vec<i32>>> = None;
+            for (perm, valsel) in crate::props::c09::orders(model.vars.len()) {
+                let my = idx;
+                idx += 1;
+                if !ctl.want(my) {
+                    continue;
+                }
+                let sols = sols.get_or_insert_with(|| model.solutions());
+                let desc = || format!("{} || order {:?} val {}", model.describe(), perm, valsel);
+                ctl.case(my, &desc, &mut |cx| {
+                    cx.nontrivial = gen::nontrivial(&model, sols.len());
+                    crate::props::c09::run_order(&model, sols, &default_cfg, &perm, valsel, cx);
+                });
+            }
         }
     }
 }
